@@ -901,3 +901,31 @@ Proof.
   intros Hn. apply (read_own_write_proof (toy_memcfg size) m k);
     [apply toy_cw_pos | exact Hn | apply distinct_eff_noovf; reflexivity].
 Qed.
+
+(** * Well-formed configurations: valid addresses are their own effective addresses *)
+Lemma rv_cfg_wf : cfg_wf rv_memcfg.
+Proof. unfold cfg_wf. cbn. repeat split; try lia; intros; reflexivity || discriminate. Qed.
+Lemma toy_cfg_wf size : cfg_wf (toy_memcfg size).
+Proof. unfold cfg_wf. cbn. repeat split; try lia; intros; discriminate. Qed.
+
+Lemma eff_valid_id_proof c x : cfg_wf c -> valid c x -> eff c x = x.
+Proof.
+  intros (_ & Hl & Hlo & Hhi) [H1 H2]. unfold eff. destruct (aovf c); [|reflexivity].
+  apply Z.mod_small. specialize (Hhi eq_refl). lia.
+Qed.
+
+(* an access whose raw addresses a .. a+k-1 are all valid reads the cells at exactly those *)
+Lemma read_raw_proof c m k nbits a :
+  cfg_wf c -> nbits = cw c * Z.of_nat k -> cells_wf c m ->
+  (forall i, (i < k)%nat -> valid c (a + Z.of_nat i)) ->
+  mem_read c m nbits a = Ok (le_compose (cells m) (cw c) a k).
+Proof.
+  intros Hc Hn Hm Hall. pose proof Hc as (Hw & _).
+  rewrite (read_ok_proof c m k nbits a Hw Hn Hm).
+  - f_equal. apply le_compose_ext. intros i Hi. rewrite eff_valid_id_proof; auto.
+  - intros i Hi. rewrite eff_valid_id_proof; auto.
+Qed.
+
+Lemma toy_range_proof size x : size <= 4096 -> valid (toy_memcfg size) x ->
+  0 <= x < 2 ^ alen (toy_memcfg size).
+Proof. intros Hs [H1 H2]. change (2 ^ alen (toy_memcfg size)) with 4096. cbn in H1, H2. lia. Qed.
